@@ -19,6 +19,7 @@ import (
 type answer struct {
 	members [][2]uint64 // (node reg id, raft replica id)
 	memErr  bool        // members query fails
+	notLoad bool        // the node is up but has not started the namespace: 404 on both queries
 	synced  bool
 }
 
@@ -88,6 +89,8 @@ func stubHandler(w http.ResponseWriter, req *http.Request) {
 	switch {
 	case !present:
 		http.Error(w, "node down", 500)
+	case a.notLoad:
+		http.Error(w, "no namespace found", 404)
 	case strings.HasPrefix(req.URL.Path, common.APIGetMembers+"/"):
 		if a.memErr {
 			http.Error(w, "members unavailable", 500)
